@@ -179,6 +179,66 @@ pub fn vec_into_iter_try_map_collect<T, U, E, F: FnMut(T) -> core::result::Resul
         },
 { v.into_iter().map(f).collect() }
 
+// R21 for maps.  ASSUMED (std): `into_iter().map(f).collect()` from a map into a map applies the closure once to every entry and
+// the result holds exactly the produced pairs (when two produced keys collide one of them survives: the clauses below do not say
+// which).  For `Result` targets: `Err(e)` is some entry's error, `Ok` means every entry produced `Ok`.  Stated through the closure's
+// own postcondition, hence sound for any closure.  Iteration ORDER is not modelled (it cannot be observed in the resulting map).
+pub open spec fn pair_has_src<K, V, K2, V2, F: FnMut((K, V)) -> (K2, V2)>(f: F, m: Map<K, V>, k2: K2, v2: V2) -> bool {
+    exists|k: K| m.dom().contains(k) && call_ensures(f, ((k, m[k]),), (k2, v2))
+}
+pub open spec fn pair_has_dst<K, V, K2, V2, F: FnMut((K, V)) -> (K2, V2)>(f: F, k: K, v: V, out: Map<K2, V2>) -> bool {
+    exists|k2: K2, v2: V2| call_ensures(f, ((k, v),), (k2, v2)) && out.dom().contains(k2)
+}
+pub open spec fn try_pair_has_src<K, V, K2, V2, E, F: FnMut((K, V)) -> core::result::Result<(K2, V2), E>>(f: F, m: Map<K, V>, k2: K2, v2: V2) -> bool {
+    exists|k: K| m.dom().contains(k) && call_ensures(f, ((k, m[k]),), Ok::<(K2, V2), E>((k2, v2)))
+}
+pub open spec fn try_pair_has_dst<K, V, K2, V2, E, F: FnMut((K, V)) -> core::result::Result<(K2, V2), E>>(f: F, k: K, v: V, out: Map<K2, V2>) -> bool {
+    exists|k2: K2, v2: V2| call_ensures(f, ((k, v),), Ok::<(K2, V2), E>((k2, v2))) && out.dom().contains(k2)
+}
+pub open spec fn try_pair_fails<K, V, K2, V2, E, F: FnMut((K, V)) -> core::result::Result<(K2, V2), E>>(f: F, m: Map<K, V>, e: E) -> bool {
+    exists|k: K| m.dom().contains(k) && call_ensures(f, ((k, m[k]),), Err::<(K2, V2), E>(e))
+}
+
+#[verifier::external_body]
+pub fn btree_into_iter_map_collect_btree<K, V, K2: Ord, V2, F: FnMut((K, V)) -> (K2, V2)>(m: BTreeMap<K, V>, f: F) -> (r: BTreeMap<K2, V2>)
+    ensures
+        forall|k2: K2| #[trigger] r@.dom().contains(k2) ==> pair_has_src(f, m@, k2, r@[k2]),
+        forall|k: K| #[trigger] m@.dom().contains(k) ==> pair_has_dst(f, k, m@[k], r@),
+{ m.into_iter().map(f).collect() }
+
+#[verifier::external_body]
+pub fn hash_into_iter_map_collect_btree<K, V, K2: Ord, V2, F: FnMut((K, V)) -> (K2, V2)>(m: std::collections::HashMap<K, V>, f: F) -> (r: BTreeMap<K2, V2>)
+    ensures
+        forall|k2: K2| #[trigger] r@.dom().contains(k2) ==> pair_has_src(f, m@, k2, r@[k2]),
+        forall|k: K| #[trigger] m@.dom().contains(k) ==> pair_has_dst(f, k, m@[k], r@),
+{ m.into_iter().map(f).collect() }
+
+#[verifier::external_body]
+pub fn btree_into_iter_try_map_collect_btree<K, V, K2: Ord, V2, E, F: FnMut((K, V)) -> core::result::Result<(K2, V2), E>>(m: BTreeMap<K, V>, f: F) -> (r: core::result::Result<BTreeMap<K2, V2>, E>)
+    ensures
+        match r {
+            Ok(out) => (forall|k2: K2| #[trigger] out@.dom().contains(k2) ==> try_pair_has_src(f, m@, k2, out@[k2]))
+                && (forall|k: K| #[trigger] m@.dom().contains(k) ==> try_pair_has_dst(f, k, m@[k], out@)),
+            Err(e) => try_pair_fails(f, m@, e),
+        },
+{ m.into_iter().map(f).collect() }
+
+#[verifier::external_body]
+pub fn btree_into_iter_try_map_collect_hash<K, V, K2: Eq + core::hash::Hash, V2, E, F: FnMut((K, V)) -> core::result::Result<(K2, V2), E>>(m: BTreeMap<K, V>, f: F) -> (r: core::result::Result<std::collections::HashMap<K2, V2>, E>)
+    ensures
+        match r {
+            Ok(out) => (forall|k2: K2| #[trigger] out@.dom().contains(k2) ==> try_pair_has_src(f, m@, k2, out@[k2]))
+                && (forall|k: K| #[trigger] m@.dom().contains(k) ==> try_pair_has_dst(f, k, m@[k], out@)),
+            Err(e) => try_pair_fails(f, m@, e),
+        },
+{ m.into_iter().map(f).collect() }
+
+/// `btree.into_iter().collect::<HashMap<_, _>>()`: same entries
+#[verifier::external_body]
+pub fn btree_into_iter_collect_hash<K: Eq + core::hash::Hash, V>(m: BTreeMap<K, V>) -> (r: std::collections::HashMap<K, V>)
+    ensures r@ == m@,
+{ m.into_iter().collect() }
+
 /// what `ToString::to_string` produces for a value (generic `impl ToString` parameters)
 #[verifier::external_trait_specification]
 #[verifier::external_trait_extension(ToStringSpec via ToStringSpecImpl)]
@@ -197,6 +257,11 @@ use super::*;
 #[verifier::external_body]
 pub broadcast proof fn axiom_try_from_int_error_unique(e: core::num::TryFromIntError)
     ensures #[trigger] overflow_err(e) == overflow_err(the_try_from_int_error()),
+{}
+/// std: `impl<T> From<T> for T` is reflexive ("returns its argument"), here for the key type `String` of map conversions
+#[verifier::external_body]
+pub broadcast proof fn axiom_into_reflexive_string(a: String, b: String)
+    ensures #[trigger] call_ensures(<String as Into<String>>::into, (a,), b) ==> a == b,
 {}
 }
 pub use ax_conv::*;
